@@ -240,6 +240,8 @@ def _non_output(repo, fn, s, guarded_ids):
         d = dotted(c.func) or ""
         if nm == "print" or d in ("sys.stdout.write", "sys.stdout.flush", "warnings.warn"):
             return _impure_args(c)
+        if _local_pure_function(c):
+            return _impure_args(c)          # a helper nested in the function that only formats and prints
         return "calls %s" % (d or nm)
     if isinstance(s, ast.Expr) and isinstance(s.value, ast.Constant):
         return None
@@ -304,7 +306,8 @@ def _local_pure_function(call):
             return False
         if isinstance(x, ast.Assign) and not all(isinstance(t0, ast.Name) for t0 in x.targets):
             return False
-        if isinstance(x, ast.Call) and call_name(x) not in PURE_CALLS and not (dotted(x.func) or "").startswith("np."):
+        if isinstance(x, ast.Call) and call_name(x) not in PURE_CALLS and not (dotted(x.func) or "").startswith("np.") \
+                and not (isinstance(x.func, ast.Name) and x.func.id == "print"):          # a local helper that prints is what a verbosity guard is for
             return False
     return True
 
